@@ -57,6 +57,8 @@ def _not_field_wildcards(ctx) -> Any:
     for lk in ctx.get("likes", []):
         for v in lk["dyn"]:
             conds.append(z3.Or(v.null, z3.Not(V.has_char(v, [V.PCT, V.USC]))))
+    for v in ctx.get("nonliteral_patterns", []):
+        conds.append(z3.Or(v.null, z3.Not(V.has_char(v, [V.PCT, V.USC]))))
     return z3.And(conds) if conds else V.TRUE
 
 
